@@ -1,1 +1,59 @@
-import FFVerif.Props.C07
+/-
+C07 — property theorems: counting matrices are a lossless from-to encoding of the digitised count.
+`toMatrix` is the code-shaped model of `countingRstToCountingMatrix` (zero matrix, one accumulation
+per cycle, end points indexed through the sorted distinct key list).
+-/
+import FFVerif.Lemmas.Collapse
+namespace FF
+open C07 C02
+
+theorem keysOK_of_sorted : ∀ keys : List Int, StrictAsc keys → keysOK keys = true
+  | [], _ => rfl
+  | [_], _ => by simp [keysOK]
+  | a :: b :: rest, h => by
+    have h' := List.pairwise_cons.mp h
+    have ih := keysOK_of_sorted (b :: rest) h'.2
+    simp only [keysOK, List.zip_cons_cons, List.all_cons, Bool.and_eq_true, decide_eq_true_eq] at ih ⊢
+    exact ⟨h'.1 b (by simp), ih⟩
+
+theorem zip_map_self {β : Type} (l : List Int) (f : Int → β) : (l.map f).zip l = l.map (fun a => (f a, a)) := by
+  induction l with
+  | nil => rfl
+  | cons x l ih => simp [ih]
+
+/-- for every cycle list: sorted distinct keys, a square matrix, entry (i,j) = total count from key i to
+key j, entries summing to the total count, and the |key_j - key_i| collapse equal to the aggregated table -/
+theorem C07_matrix (cs : List Cyc) :
+    C07.failing cs (table cs) (toMatrix cs).1 (toMatrix cs).2 = [] := by
+  rw [toMatrix_eq_spec]
+  have hn : (matrixKeys cs).Nodup := (sortLevels_sorted _).nodup
+  have hk := matrixKeys_mem cs
+  have h1 : keysOK (matrixKeys cs) = true := keysOK_of_sorted _ (sortLevels_sorted _)
+  have h2 : squareOK (specMatrix cs (matrixKeys cs)) (matrixKeys cs) = true := by
+    simp [squareOK, specMatrix]
+  have h3 : entriesOK cs (specMatrix cs (matrixKeys cs)) (matrixKeys cs) = true := by
+    simp only [entriesOK, specMatrix, zip_map_self, List.all_map, Bool.and_eq_true, List.all_eq_true,
+      Function.comp, beq_iff_eq, List.contains_iff_mem]
+    exact ⟨fun a _ b _ => trivial, fun c hc => hk c hc⟩
+  have h4 : sumOK cs (specMatrix cs (matrixKeys cs)) = true := by
+    have := msum_spec cs _ hn hk
+    simpa [sumOK, msum] using this
+  have h5 : collapseOK (table cs) (specMatrix cs (matrixKeys cs)) (matrixKeys cs) = true := by
+    simp [collapseOK, collapse_spec cs _ hn hk]
+  simp [C07.failing, h1, h2, h3, h4, h5]
+
+/-- the seven matrix functions: digitise, count, encode -/
+theorem C07_functions (k : Counter) (r : Int) (h : List Int) :
+    C07.failing (k.run (digitize r h)) (table (k.run (digitize r h)))
+      (toMatrix (k.run (digitize r h))).1 (toMatrix (k.run (digitize r h))).2 = [] :=
+  C07_matrix _
+
+/-- an empty count gives the empty matrix and no keys -/
+theorem C07_empty : toMatrix [] = ([], []) := by
+  simp [toMatrix, matrixKeys, sortLevels]
+
+-- non-vacuity: the ASTM example through the rainflow matrix function
+example : (toMatrix (rainflow (digitize 1 [-2, 1, -3, 5, -1, 3, -4, 4, -2]))).2 = [-4, -3, -2, -1, 1, 3, 4, 5] := by
+  simp [rainflow, digitize, roundHalfEven, pv, pvGo, implGo, rng, halves, toMatrix, matrixKeys, sortLevels, insertLevel]
+
+end FF
